@@ -30,7 +30,7 @@ NPROC = min(12, common.NCPU)
 
 
 # ------------------------------------------------------------------ running the implementation
-def run_impl_cases(cases, script="c13_impl.py", timeout=1500, nproc=NPROC):
+def run_impl_cases(cases, script="c13_impl.py", timeout=1500, nproc=NPROC, env=None):
     if not cases:
         return []
     shards = [cases[i::nproc] for i in range(nproc)]
@@ -39,7 +39,7 @@ def run_impl_cases(cases, script="c13_impl.py", timeout=1500, nproc=NPROC):
         if not sh_cases:
             return []
         rc, out, err = common.run_impl(script, input_text="\n".join(json.dumps(c) for c in sh_cases) + "\n",
-                                       timeout=timeout)
+                                       timeout=timeout, env=common.impl_env(env))
         lines = [json.loads(l) for l in out.splitlines() if l.strip()]
         if len(lines) != len(sh_cases):
             raise RuntimeError("%s produced %d results for %d cases: %s" % (script, len(lines), len(sh_cases), err[-2000:]))
@@ -485,6 +485,9 @@ def evaluate(ctx, cases, name, stats):
     oracle_fail, disagree, script_fail = [], [], []
     exprs, meta = [], []
     for c, r in zip(cases, res):
+        if "skipped" in r:
+            stats["skipped"] = stats.get("skipped", 0) + 1
+            continue
         if "harness_error" in r:
             oracle_fail.append(("harness error in the implementation runner: " + r["harness_error"], c, r))
             continue
@@ -493,6 +496,18 @@ def evaluate(ctx, cases, name, stats):
             raise RuntimeError("parent and child built different files for " + json.dumps(c))
         bad, judged, expand = oracle_read(c, r["results"], dfile)
         stats["ops_judged"] += judged
+        if bad and "no result after" in bad:
+            # a timer-based hang: confirm once, alone, with a much longer limit (never decide on wall-clock luck)
+            if stats.get("hang_retries", 0) >= 3:
+                continue
+            stats["hang_retries"] = stats.get("hang_retries", 0) + 1
+            r2 = run_impl_cases([c], nproc=1, env={"VERIF_C13_ALARM": "45"})[0]
+            bad2 = oracle_read(c, r2["results"], dfile)[0] if "results" in r2 else "no result"
+            if bad2 and "never returned" in bad2:
+                oracle_fail.append((bad + " (confirmed with a 45 s limit)", c, r))
+            else:
+                stats.setdefault("inconclusive", []).append(bad)
+            continue
         if bad:
             oracle_fail.append((bad, c, r))
             continue
@@ -539,7 +554,7 @@ def search_failing(ctx, n=300):
     cases = gen_exhaustive(True)[:900] + gen_random(ctx.rng, n)
     res = run_impl_cases(cases)
     for c, r in zip(cases, res):
-        if "harness_error" in r:
+        if "harness_error" in r or "skipped" in r:
             continue
         raw, d, dfile, complete = file_payload(c)
         bad, _, _ = oracle_read(c, r["results"], dfile)
@@ -547,7 +562,7 @@ def search_failing(ctx, n=300):
             return bad, c
     wcases = gen_write(ctx.rng, 60)
     for c, r in zip(wcases, run_impl_cases(wcases)):
-        if "harness_error" in r:
+        if "harness_error" in r or "skipped" in r:
             continue
         bad = judge_write(c, r)
         if bad:
@@ -584,6 +599,8 @@ def run(ctx):
     wres = run_impl_cases(wcases)
     wexprs, wmeta = [], []
     for c, r in zip(wcases, wres):
+        if "skipped" in r:
+            continue
         if "harness_error" in r:
             oracle_fail.append(("harness error in the implementation runner: " + r["harness_error"], c, r))
             continue
@@ -602,6 +619,10 @@ def run(ctx):
         elif len(c["chunks"]) > 1:
             stats["nontrivial"].add(json.dumps([c["payload"], c["fmt"], c["level"], c["chunks"][:50], c["ops"][:50]]))
     # decide
+    for x in stats.get("inconclusive", []):
+        ctx.note("inconclusive (returned when retried alone with a 45 s limit): " + x)
+    if stats.get("skipped"):
+        ctx.note("%d cases skipped after timer-detected hangs in the same runner process" % stats["skipped"])
     if stats.get("drift"):
         ctx.note("representation drift in %d cases: _buffer_offset/len(_buffer) differ from the model while the "
                  "buffered byte count, _pos, _mode, _size and every return value agree (e.g. %s)"
